@@ -56,8 +56,13 @@ class LinesDropped(Exception):
         self.node = node
 
 
+def tokenizer(prog):
+    """the function that holds the tokenizer's code (Token.tokenize, or what it delegates to)"""
+    return prog.implementation("starfileio.Token.tokenize")
+
+
 def reader_constants(prog):
-    m, fn = prog.func("starfileio.Token.tokenize")
+    m, fn = prog.func(tokenizer(prog))
     consts = {"property": set(), "loop": set(), "comment": set(), "linesep": set()}
     for n in ast.walk(fn):
         if isinstance(n, ast.Compare) and len(n.ops) == 1 and isinstance(n.comparators[0], ast.Constant) \
@@ -200,13 +205,13 @@ def o22(ctx):
     try:
         c, mt, ft = reader_constants(ctx.prog)
     except CommentWeakened as e:
-        mt, ft = ctx.prog.func("starfileio.Token.tokenize")
+        mt, ft = ctx.prog.func(tokenizer(ctx.prog))
         ctx.count(1)
         ctx.finding("starfileio.Token.tokenize", e.node, "the comment character is treated as an ordinary character under some condition: a label "
                     "written with its numbering comment glued on (`_rlnCoordinateX#1`) is then read as a column named with the comment", e.node, mt)
         return
     except LinesDropped as e:
-        mt, ft = ctx.prog.func("starfileio.Token.tokenize")
+        mt, ft = ctx.prog.func(tokenizer(ctx.prog))
         ctx.count(1)
         ctx.finding("starfileio.Token.tokenize", e.node, "the tokenizer does not see every line of the text: the split is sliced, so a last line "
                     "without a final line break (files written by other programs, texts held in memory) is silently dropped", e.node, mt)
